@@ -26,6 +26,11 @@ struct MultiZip(Vec<std::vec::IntoIter<Value>>);
 impl Iterator for MultiZip {
     type Item = Vec<Value>;
     fn next(&mut self) -> Option<Self::Item> {
+        // zipping no arrays at all yields nothing (`collect` over no iterators would
+        // produce `Some(vec![])` forever)
+        if self.0.is_empty() {
+            return None;
+        }
         self.0.iter_mut().map(Iterator::next).collect()
     }
 }
